@@ -293,6 +293,17 @@ func c11(c *ctx) {
 		rb        int
 	}
 	dreqs := []dreq{{"plain", reqs["plain"], 0}, {"long", reqs["long"], 0}, {"bad", reqs["bad"], 0}}
+	// requests that net/http's own parser refuses or reads differently, but the zero-copy upgrader handles
+	// (the wrapper must not change the outcome whatever it uses to look at the bytes)
+	okHead := "GET /x HTTP/1.1\r\nHost: h\r\nUpgrade: websocket\r\nConnection: Upgrade\r\nSec-WebSocket-Version: 13\r\nSec-WebSocket-Protocol: chat\r\nSec-WebSocket-Key: dGhlIHNhbXBsZSBub25jZQ==\r\n"
+	dreqs = append(dreqs,
+		dreq{"twohosts", okHead + "Host: other\r\n\r\n", 0},
+		dreq{"nocolon", okHead + "X-NoColon-Line\r\n\r\n", 0},
+		dreq{"lfonly", strings.ReplaceAll(okHead, "\r\n", "\n") + "\n", 0},
+		dreq{"badmethod", "G@T" + okHead[3:] + "\r\n", 0},
+		dreq{"http10", strings.Replace(okHead, "HTTP/1.1", "HTTP/1.0", 1) + "\r\n", 0},
+		dreq{"spaceinname", okHead + "X Bad: v\r\n\r\n", 0},
+		dreq{"emptyname", okHead + ": v\r\n\r\n", 0})
 	// a header line whose length sweeps across the read-buffer size and its multiples (the line
 	// "X-Pad: ppp..." is lineLen bytes long without its CRLF)
 	padded := func(lineLen int) string {
@@ -325,11 +336,13 @@ func c11(c *ctx) {
 			du := wsutil.DebugUpgrader{Upgrader: mkU(),
 				OnRequest: func(b []byte) { gotReq = append([]byte(nil), b...); calls++ }, OnResponse: func(b []byte) { gotResp = append([]byte(nil), b...) }}
 			// (a client must not send frames before it has the response, so nothing follows the request)
-			rw := &rwBuf{r: &vh.ChunkReader{Data: []byte(req), Sizes: ch}}
+			src := &vh.ChunkReader{Data: []byte(req), Sizes: ch}
+			rw := &rwBuf{r: src}
 			hs, err := du.Upgrade(rw)
 			plain := &rwBuf{r: bytes.NewReader([]byte(req))}
 			hs2, err2 := mkU().Upgrade(plain)
-			emit(map[string]interface{}{"k": "debug", "key": key, "reqEq": bytes.Equal(gotReq, []byte(req)), "respEq": bytes.Equal(gotResp, rw.w.Bytes()),
+			emit(map[string]interface{}{"k": "debug", "key": key, // (the bytes exchanged are those taken from the transport: an upgrader that refuses the request line does not read on)
+				"reqEq": bytes.Equal(gotReq, []byte(req)[:src.Pos]), "respEq": bytes.Equal(gotResp, rw.w.Bytes()),
 				"sameOutcome": (err == nil) == (err2 == nil) && hs.Protocol == hs2.Protocol && bytes.Equal(rw.w.Bytes(), plain.w.Bytes()),
 				"trailingOK":  true, "wrapOK": true, "calls": calls}, fmt.Sprintf("debug/upgrader/%s/%d", dr.name[:3], dr.rb))
 		}
